@@ -198,7 +198,7 @@ func main() {
 				defer wg.Done()
 				r := rand.New(rand.NewSource(*seed*1000 + int64(t)))
 				ds := append(docs(1+t+rounds*(*g), t), shared...) // own documents (regular expressions spelled as no one did before, keys in this goroutine's case) and the shared ones
-				<-release // released together
+				<-release                                         // released together
 				for _, c := range plans[t] {
 					if r.Intn(3) == 0 {
 						runtime.Gosched()
